@@ -535,7 +535,8 @@ func parseUpdateToxicParams(c *cli.Context) (*toxiproxy.ToxicOptions, error) {
 		return nil, err
 	}
 
-	result.Toxicity, err = parseToxicity(c, 1.0)
+	// -1 tells the client to keep the toxic's current toxicity when --toxicity is not given.
+	result.Toxicity, err = parseToxicity(c, -1)
 	if err != nil {
 		return nil, err
 	}
